@@ -453,7 +453,7 @@ func runPipeCtl(c *ctx) error {
 			return err
 		}
 	}
-	if want("C01", "C03", "C06", "C08", "C09", "C10", "C07") {
+	if want("C01", "C02", "C03", "C06", "C08", "C09", "C10", "C07") {
 		if err := ctlSharedKey(c, file); err != nil {
 			return err
 		}
